@@ -60,7 +60,7 @@ def generate():
     text = '\n'.join([
         '(* GENERATED on every run by harness/translate/c01.py from /repo/edxml/event.py and',
         '   /repo/edxml/ontology/event_property.py — do not edit. *)',
-        'From EdxmlVerif Require Import Base.Prelude.',
+        'From Coq Require Import String.', 'From EdxmlVerif Require Import Base.Prelude.',
         'Definition gen_extracted : bool := %s.' % coq(bool(c['extracted'])),
         'Definition gen_separator : list N := %s.' % coq(c['separator']),
         'Definition gen_objfmt : list N := %s.' % coq(c['objfmt']),
